@@ -621,7 +621,7 @@ def r025(an, rep):
     # discard loop: exactly the even offsets strictly between first and next
     ranges = [n for n in ast.walk(loop) if isinstance(n, ast.For) and n is not loop and isinstance(n.iter, ast.Call) and isinstance(n.iter.func, ast.Name) and n.iter.func.id == "range"]
     ok = False
-    detail = "no loop discarding the entries of the prefix units"
+    detail = "no loop taking the entries of the later code units out of the mapping"
     for r in ranges:
         try:
             got = list(feval(r.iter, {first_name: 4, next_name: 10, "range": range}))
@@ -629,7 +629,8 @@ def r025(an, rep):
             detail = f"range {norm_src(r.iter)} covers offsets {got} for an instruction spanning 4..10" + ("" if ok else ", expected [6, 8]")
         except Exception as ex:
             detail = f"range not evaluable: {ex}"
-    rep.add("R02.5", f"{f.qual}::prefix units' line entries are discarded, nothing else", ok, loc(f.module, loop), detail)
+    rep.add("R02.5", f"{f.qual}::exactly the later code units of the instruction are taken out of the mapping", ok, loc(f.module, loop),
+            detail + " (what is done with their values is judged by R01.A / R11.L)")
 
 
 def r026(an, rep):
